@@ -702,6 +702,18 @@ impl<'a> Engine<'a> {
                 if a.len() != len - j {
                     self.h.viol("C09", "clone-diverges", format!("Set::iter: a clone taken after {} of {} items yields {} more", j, len, a.len()));
                 }
+                // clone_from: an iterator at ANOTHER position, overwritten in place, continues like its source
+                let adv = (j * 7 + len + 1) % (len + 1);
+                let mut c = m.iter();
+                for _ in 0..adv {
+                    c.next();
+                }
+                c.clone_from(&it);
+                let (cl, ch) = (c.len(), c.size_hint());
+                let x: Vec<u64> = c.map(|k| k.id() ^ u64::from(k.class())).collect();
+                if x != a || cl != len - j || ch != (len - j, Some(len - j)) {
+                    self.h.viol("C09", "clone_from-diverges", format!("Set::iter: an iterator advanced by {} and then overwritten with clone_from(&original after {} of {} items) reports len {} and yields {} more items instead of {}", adv, j, len, cl, x.len(), a.len()));
+                }
             }
             let remaining = len - step;
             let (lo, hi) = it.size_hint();
